@@ -21,6 +21,10 @@ def span_allocate_pairs():
         out.append(dict(name="span_allocate_huge_si%d" % si, entry="h_span_allocate", harness="harness/seg_span.c", enforce="mi_segment_span_allocate", config="SCALED", label="PC", unwind=14,
                   defs=["-DVC_SI=%d" % si, "-DVC_SPAN_HUGE"], unwindset={"mi_segment_span_allocate.0": 34}, replace=["mi_segment_ensure_committed/c_ensure_committed_rec"],
                   functions=["mi_segment_span_allocate"], timeout=900, cbmc_flags=NOPTR, tier=("quick" if si == 1 else "thorough")))
+    for si in range(0, 64):   # coalescing writes through the slice pointer: same per-index treatment
+        out.append(dict(name="span_coalesce_si%d" % si, entry="h_coalesce", harness="harness/seg_span.c", enforce="mi_segment_span_free_coalesce", config="SCALED", label="P", unwind=14, defs=["-DVC_SI=%d" % si],
+                  replace=["mi_segment_span_free/c_span_free_rec", "mi_segment_span_remove_from_queue/c_span_remove_rec"], functions=["mi_segment_span_free_coalesce", "mi_slice_first", "mi_slice_index"],
+                  timeout=900, cbmc_flags=NOPTR, tier=("quick" if si in (0, 7, 30) else "thorough")))
     return out
 def pairs():
     P = lambda n, e, f, rep, **kw: dict(dict(name=n, entry=e, harness=HS, enforce=f, replace=rep + STUBS, config="SCALED", label="PC", functions=[f], timeout=600, cbmc_flags=NOPTR, unwind=14, unwindset={"_mi_commit_mask_committed_size.0": 66, "_mi_commit_mask_committed_size.1": 66}), **kw)
@@ -40,5 +44,7 @@ def pairs():
                   replace=["mi_segment_span_allocate", "mi_segment_ensure_committed/c_ensure_committed_rec"], functions=["_mi_segment_page_of"], timeout=600, cbmc_flags=NOPTR),
       "span_free": dict(name="span_free", entry="h_span_free", harness="harness/seg_span.c", enforce="mi_segment_span_free", config="SCALED", label="P", unwind=14,
                   replace=["mi_span_queue_push/c_sq_push_rec", "mi_segment_schedule_purge/c_schedule_purge_rec"], functions=["mi_segment_span_free", "mi_span_queue_for"], timeout=600),
+      "slice_split": dict(name="slice_split", entry="h_slice_split", harness="harness/seg_span.c", enforce="mi_segment_slice_split", config="SCALED", label="P", unwind=14,
+                  replace=["mi_segment_span_free/c_span_free_rec"], functions=["mi_segment_slice_split", "mi_slice_index"], timeout=600, cbmc_flags=NOPTR),
       "seg_ensure_committed": P("seg_ensure_committed", "h_ensure_committed", "mi_segment_ensure_committed", ["mi_segment_commit/c_seg_commit_rec"]),
     }
